@@ -254,7 +254,17 @@ class StepUnit(Unit):
             holder = env.get(self.acc[0])
             return holder.get(self.acc[1]) if isinstance(holder, dict) else None
         acc = env.get(self.acc)
+        if acc is None and self.acc_name(env) is not None:
+            acc = env.get(self.acc_name(env))
         return acc
+
+    def acc_name(self, env):
+        """the accumulator's local name: the one the contract was written against, or -- when the decoder no longer has
+        a local of that name (a harmless rename) -- the only list among the loop's locals"""
+        if not isinstance(self.acc, str) or self.acc in env:
+            return self.acc if isinstance(self.acc, str) else None
+        cands = [k for k, v in env.items() if isinstance(v, list)]
+        return cands[0] if len(cands) == 1 else None
 
     def ensures(self, case, a, out, X):
         if out.kind == "return" and out.value.get("noloop"):
@@ -292,7 +302,7 @@ class StepUnit(Unit):
         if limit is None:
             yield "C04", "exit:loop-stops-only-when-the-buffer-is-used-up", spec_count is None
         else:
-            yield "C04", "exit:loop-test-is-len(buffer)-and-len(list)<count", limit[0] == (self.acc if isinstance(self.acc, str) else "?") and limit[1] is not None
+            yield "C04", "exit:loop-test-is-len(buffer)-and-len(list)<count", limit[0] == (self.acc_name(env) if isinstance(self.acc, str) else "?") and limit[1] is not None
             if limit[1] is not None and spec_count is not None:
                 yield "C04", "exit:element-count-limit-is-the-specified-count", V.compare("==", limit[1], spec_count)
             elif spec_count is None:
